@@ -1,5 +1,6 @@
 import RossModel.Lemmas.SourceTie
 import RossModel.Lemmas.Exchange
+import RossModel.Lemmas.SourceProtocol
 /-!
 # C18 — Exchange returns the first (or all) matching replies in arrival order
 
@@ -81,5 +82,25 @@ example :
     let r := s0.exchange ⟨false, 9, [1]⟩ .ack false
     ((match r.2 with | .ok e => e == .ack 5 7 | .error _ => false), r.1.rxQueue.length, r.1.log) =
       (true, 1, [.tx ⟨false, 9, [1]⟩ true, .wait]) := by decide
+
+/-- **Source tie (control flow).** `exchange_packet` and `exchange_packets` as translated statement by statement from
+`src/protocol.rs` on every run (`self.send_packet(&packet)?`, the wait closure, the `loop` over
+`interface.try_get_packet()` with its `break` and early `return`s, the vector of collected replies; the loop runs on
+`rxQueue.length + 1` units of fuel) never run out of fuel and compute what the model's `Proto.exchange` /
+`Proto.exchangeAll` do, for every state, request, reply kind and capture flag -/
+theorem C18_src_exchange_eq (s : Proto) (p : Packet) (k : Kind) (capture : Bool) :
+    Src.exchange s p k capture = some (s.exchange p k capture) ∧
+    Src.exchangeAll s p k capture = some (s.exchangeAll p k capture) :=
+  ⟨Ross.src_exchange_eq s p k capture, Ross.src_exchangeAll_eq s p k capture⟩
+
+/-- C18 (single reply) **about the translated receive loop**: with enough fuel for the queue, the first packet in arrival
+order that passes the address filter and decodes as the requested kind is returned and nothing after it is consumed -/
+theorem C18_src_exchangeLoop_first (s : Proto) (k : Kind) (capture : Bool) (pre : List (Except IfErr Packet))
+    (r : Packet) (e : Event) (post : List (Except IfErr Packet))
+    (hq : s.rxQueue = pre ++ .ok r :: post)
+    (hpre : ∀ x ∈ pre, Skipped s.addr k capture x) (hr : matchesReply s.addr k capture r = some e) :
+    Src.exchangeLoop k capture (s.rxQueue.length + 1) s = some ({ s with rxQueue := post }, .ok e) := by
+  rw [Ross.src_exchangeLoop_eq k capture _ s (Nat.lt_succ_self _), hq]
+  exact congrArg some (Ross.exchangeLoop_first s k capture pre r e post hpre hr)
 
 end Ross.Props
